@@ -120,8 +120,9 @@ PROPS = {
         "units": [
             regress("C07"),
             {"run": "^TestRefSelf$", "quick": 300, "thorough": 3000, "single": True},
-            {"run": "^TestC07$", "quick": 400, "thorough": 2000},
+            {"run": "^TestC07$", "quick": 300, "thorough": 2000},
             {"run": "^TestC07Repetitive$", "quick": 25, "thorough": 60},
+            {"run": "^TestC07Large$", "quick": 1, "thorough": 1, "single": True, "rapid": False},
         ],
     },
     "C08": {
